@@ -684,7 +684,7 @@ class Evaluator:
                 r = any(same(a, x) for x in b)
             elif isinstance(b, dict) and (isinstance(a, str) or (isinstance(a, Poly) and a.is_const())):
                 r = any(same(a, x) for x in b)
-            if r is None and isinstance(b, (list, tuple)) and 0 < len(b) <= 8 and all(_is_concrete(x) for x in b) and not isinstance(a, (list, tuple, dict)):
+            if r is None and isinstance(b, (list, tuple)) and 0 < len(b) <= 8 and all(_is_concrete(x) or isinstance(x, Poly) for x in b) and not isinstance(a, (list, tuple, dict)):
                 r = s.mkbool('or', [s.compare(ast.Eq(), a, x) for x in b])
             if r is None: r = Opq('in', a, b)
             return r if isinstance(op, ast.In) else s.negate(r)
@@ -785,7 +785,9 @@ class Evaluator:
         return tuple(out)
 
     def e_List(s, e, env, mod, depth):
-        return list(s.e_Tuple(e, env, mod, depth))
+        r = list(s.e_Tuple(e, env, mod, depth))
+        if len(r) == 1 and isinstance(r[0], Opq) and r[0].k and r[0].k[0] == '*' and len(e.elts) == 1: return s.builtin('list', [r[0].k[1]], {}, mod, depth)   # [*x] == list(x)
+        return r
 
     def e_Set(s, e, env, mod, depth):
         return Opq('set', *s.e_Tuple(e, env, mod, depth))
@@ -846,7 +848,12 @@ class Evaluator:
             bound = s.bind_iter(g.target, it, env2, mod, depth, depth_id)
             fs = [s.truth(s.ev(c, env2, mod, depth)) for c in g.ifs]
             fs = [f for f in fs if f is not True]
-            gens.append((_fuse_iter(it) if depth_id == 0 else it, fs))
+            if depth_id == 0:
+                it_f = _fuse_iter(it)
+                base_, fl_ = _fuse_iter2(it_f)
+                gens.append((base_, fl_ + fs))
+            else:
+                gens.append((it, fs))
         if kind == 'dict':
             elt = (s.ev(e.key, env2, mod, depth), s.ev(e.value, env2, mod, depth))
         else:
@@ -870,8 +877,8 @@ class Evaluator:
             return tuple(s.elem_of(x, (level, i) if len(pr) > 1 else level) for i, x in enumerate(pr))
         if isinstance(it, Opq) and it.k and it.k[0] == 'items':
             return (Poly.atom(('keyof', level, tkey(it.k[1]))), Poly.atom(('valof', level, tkey(it.k[1]))))
-        if isinstance(it, Comp) and it.kind in ('list', 'gen') and len(it.gens) == 1 and not it.gens[0][1]:
-            # element of a map-comprehension = its element term (over the inner element atom): keep pairing
+        if isinstance(it, Comp) and it.kind in ('list', 'gen') and len(it.gens) == 1:
+            # element of a map-comprehension = its element term (over the inner element atom): keep pairing (its filters travel with the generator)
             return _relevel(it.elt, 0, level) if True else None
         return Poly.atom(('β', level, tkey(it)))
 
@@ -1223,6 +1230,12 @@ class Evaluator:
             return sorted(a)
         if name == 'zip' and set(kw) <= {'strict'}: kw = {}                  # strict only adds a length check
         if name == 'enumerate' and kw.get('start') is not None and isinstance(kw['start'], Poly) and kw['start'].is_zero(): kw = {}
+        if name == 'filter' and len(args) == 2 and not kw and isinstance(args[0], (Closure, Ref)):
+            # filter(f, xs) == [x for x in xs if f(x)]
+            it_ = _iter_view(args[1]); x_ = s.elem_of(it_, 0)
+            base_, fl_ = _fuse_iter2(_fuse_iter(it_))
+            g_ = s.truth(s.apply(args[0], [x_], {}, mod, depth))
+            return Comp(x_, [(base_, fl_ + ([g_] if g_ is not True else []))], 'list')
         if name == 'map' and len(args) == 2 and not kw and isinstance(args[0], (Closure, Ref)):
             # map(f, xs) == [f(x) for x in xs]
             it_ = _iter_view(args[1]); x_ = s.elem_of(it_, 0)
@@ -1635,6 +1648,21 @@ class Evaluator:
                         if any(s._empty_acc(s.lookup(nm_, env, mod)) for nm_ in names if nm_ in _chain_names(env)): ok[0] = False; return
                         s.assign(tg, s.ev(stx.value, env2, mod, depth), env2, mod, depth); continue
                     ok[0] = False; return
+                if isinstance(stx, ast.If) and not _touches_accumulator(stx):
+                    # a conditional that only updates loop-local temporaries: merged into conditional values
+                    r_ = s.block([stx], env2, mod, depth)
+                    if r_ is not FALL and r_ is not None: ok[0] = False; return
+                    continue
+                if isinstance(stx, ast.If) and stx.orelse and len(stx.body) == 1 and len(stx.orelse) == 1 and _is_append(stx.body[0]) and _is_append(stx.orelse[0]) \
+                        and ast.dump(stx.body[0].value.func) == ast.dump(stx.orelse[0].value.func):
+                    # if c: out.append(a) else: out.append(b)   ==   out.append(a if c else b)
+                    g = s.truth(s.ev(stx.test, env2, mod, depth))
+                    c1 = stx.body[0].value
+                    place = s._acc_target(c1.func.value, env, mod, depth)
+                    kind = {'append': 'list', 'add': 'set'}[c1.func.attr]
+                    if place is None or s._empty_acc(place[2]) != kind or (place[0], _pk(place[1])) in records: ok[0] = False; return
+                    a_ = s.ev(c1.args[0], env2, mod, depth); b_ = s.ev(stx.orelse[0].value.args[0], env2, mod, depth)
+                    records[(place[0], _pk(place[1]))] = (place, kind, s.mkcond(g, a_, b_)); continue
                 if isinstance(stx, ast.If):
                     g = s.truth(s.ev(stx.test, env2, mod, depth))
                     if not stx.orelse and len(stx.body) == 1 and isinstance(stx.body[0], ast.Continue):
@@ -1685,7 +1713,13 @@ class Evaluator:
             return False
         if not ok[0] or not records: return False
         for (pk, _), (place, kind, elt) in records.items():
-            gs = [((_fuse_iter(g_it) if gi_ == 0 else g_it), [f for f in fs if f is not True]) for gi_, (g_it, fs) in enumerate(gens)]
+            gs = []
+            for gi_, (g_it, fs) in enumerate(gens):
+                if gi_ == 0:
+                    base_, fl_ = _fuse_iter2(_fuse_iter(g_it))
+                    gs.append((base_, fl_ + [f for f in fs if f is not True]))
+                else:
+                    gs.append((g_it, [f for f in fs if f is not True]))
             if any(f is False for _, fs in gs for f in fs): val = {'list': [], 'set': Opq('set'), 'dict': {}}[kind]
             else: val = Comp(elt, gs, kind)
             if place[0] == 'name': s.rebind(place[1], val, env)
@@ -1863,6 +1897,18 @@ def subst_key(k, old, new, old_atom=None, new_atom=None):
     return k
 
 
+def _fuse_iter2(it):
+    """(base, filters): iterating the list comprehension [g(x) for x in base if f(x)] visits g(x) for the x of base that pass f, in order;
+    the loop variable is already expressed over the element of base, so the generator is (base, [f...])"""
+    fl = []
+    for _ in range(8):
+        if isinstance(it, Comp) and it.kind in ('list', 'gen') and len(it.gens) == 1:
+            fl = list(it.gens[0][1]) + fl
+            it = it.gens[0][0]; continue
+        break
+    return it, fl
+
+
 def _fuse_iter(it):
     """map fusion: iterating a filter-free list comprehension over `base` (or a zip of such maps / of the base itself) visits the elements of
     `base` in order -- the bound variables are already expressed over the element of `base`"""
@@ -1882,6 +1928,22 @@ def _sentinel(v):
         at = v.as_atom()
         if isinstance(at, tuple) and at[:1] == ('sentinel',): return at
     return None
+
+
+def _is_append(st):
+    return isinstance(st, ast.Expr) and isinstance(st.value, ast.Call) and isinstance(st.value.func, ast.Attribute) and st.value.func.attr in ('append', 'add') \
+        and len(st.value.args) == 1 and not st.value.keywords
+
+
+def _touches_accumulator(st):
+    """does the statement (an if) append / add / extend / update / store by subscript / continue / break / return / loop?"""
+    for n in ast.walk(st):
+        if isinstance(n, (ast.Continue, ast.Break, ast.Return, ast.For, ast.While, ast.Raise)): return True
+        if isinstance(n, ast.Call) and isinstance(n.func, ast.Attribute) and n.func.attr in ('append', 'add', 'extend', 'update', 'remove', 'pop', 'insert'): return True
+        if isinstance(n, (ast.Assign, ast.AugAssign)):
+            for t in (n.targets if isinstance(n, ast.Assign) else [n.target]):
+                if not isinstance(t, (ast.Name, ast.Tuple)): return True
+    return False
 
 
 def _iter_view(it):
@@ -2131,12 +2193,64 @@ def compare_terms(code, spec, total=False):
             if any(d1[k] != d2[k] for k in d1 if k in d2): continue        # inconsistent
             both = dict(d1); both.update(d2)
             if _exclusive(both): continue
-            if term_equal(l1, l2): continue
+            if term_equal(l1, l2) or term_equal(_eta(l1), _eta(l2)): continue
             if has_opaque(l1) or has_opaque(l2) or any(has_opaque_key(k) for k in both):
                 verdict = None if verdict is not False else False
                 continue
             return False
     return verdict
+
+
+def _eta(v):
+    """C(f1=x.f1, ..., fn=x.fn) with all the fields of one object x  ==  x   (value semantics of the package's frozen records)"""
+    if isinstance(v, Rec) and v.f:
+        base = None
+        for name, val in v.f.items():
+            at = val.as_atom() if isinstance(val, Poly) else None
+            if not (isinstance(at, tuple) and len(at) == 3 and at[0] == '.' and at[2] == name): return v
+            if base is None: base = at[1]
+            elif base != at[1]: return v
+        if isinstance(base, (str, tuple)) and not (isinstance(base, tuple) and base[:1] == ('poly',)): return Poly.atom(base)
+        if isinstance(base, tuple) and base[:1] == ('poly',): return Poly({m: c for m, c in base[1:]})
+    if isinstance(v, tuple): return tuple(_eta(x) for x in v)
+    return v
+
+
+DROPPED = Opq('dropped')
+
+
+def compare_comps(code, spec):
+    """three-valued: two single-generator comprehensions over the same iterable agree element by element -- an element passes both filters or
+    neither, and what is produced for a kept element is equal (filters and element are compared as one decision tree per element)"""
+    if not (isinstance(code, Comp) and isinstance(spec, Comp)) or len(code.gens) != 1 or len(spec.gens) != 1 or code.kind != spec.kind:
+        if term_equal(code, spec): return True
+        return None if has_opaque(code) or not isinstance(code, Comp) else False
+    if not term_equal(code.gens[0][0], spec.gens[0][0]):
+        return None if has_opaque(code.gens[0][0]) else False
+    def tree(c):
+        t = c.elt if not isinstance(c.elt, (tuple, list)) else tuple(c.elt)
+        for f in reversed(c.gens[0][1]):
+            t = _cond_of(f, t, DROPPED)
+        return t
+    return compare_terms(tree(code), tree(spec))
+
+
+def _cond_of(g, a, b):
+    """g ? a : b with and / or / not guards unfolded into nested decisions (no evaluator needed)"""
+    if g is True: return a
+    if g is False: return b
+    if isinstance(g, Cond): return Cond(g.g, _cond_of(g.a, a, b), _cond_of(g.b, a, b))
+    if isinstance(g, Opq) and g.k and g.k[0] == 'not': return _cond_of(g.k[1], b, a)
+    if isinstance(g, Opq) and g.k and g.k[0] == 'and':
+        t = a
+        for x in reversed(g.k[1:]): t = _cond_of(x, t, b)
+        return t
+    if isinstance(g, Opq) and g.k and g.k[0] == 'or':
+        t = b
+        for x in reversed(g.k[1:]): t = _cond_of(x, a, t)
+        return t
+    if isinstance(g, Opq) and g.k and g.k[0] == 'cmp' and g.k[1] == 'NotEq': return Cond(Opq('cmp', 'Eq', *g.k[2:]), b, a)
+    return Cond(g, a, b)
 
 
 def has_opaque_key(k):
